@@ -414,6 +414,24 @@ pub(crate) fn image_glue(src_a: &[u8; 3], src_b: &[u8; 2], junk: &[u8; 3], decoy
     }
 }
 
+/// image 5 (smallest; model D, dir-stream parsers modelled): three streams of one mini sector each, "SA" = junk ++ 0x01 ++ src_b,
+/// "dir" = 0x01 (empty), "SB" = 0x01 ++ src_a
+pub(crate) fn image_model_min(src_a: &[u8; 3], src_b: &[u8; 2], junk: &[u8; 3]) -> Cfb {
+    let sb = [0x01, src_a[0], src_a[1], src_a[2]];
+    let sa = [junk[0], junk[1], junk[2], 0x01, src_b[0], src_b[1]];
+    let mut mini = Mini::new();
+    let d_sa = mini.add("SA", &sa);
+    let d_dir = mini.add("dir", &[0x01]);
+    let d_sb = mini.add("SB", &sb);
+    Cfb {
+        directories: Vec::from([d_sa, d_dir, d_sb]),
+        sectors: Sectors::new(512, Vec::new()),
+        fats: Vec::new(),
+        mini_sectors: Sectors::new(64, mini.data.b[..mini.data.n].to_vec()),
+        mini_fats: mini.fat[..mini.nfat].to_vec(),
+    }
+}
+
 /// run the REAL from_cfb and compare with the format's meaning
 fn check_project(mut cfb: Cfb, src_a: &[u8], src_b: &[u8]) {
     let mut r: &[u8] = &[];
